@@ -534,23 +534,34 @@ PROPS = {
         "class_prefix": ["C12/"],
         "theorems": ["Hd.Tls.C12_scheme_test", "Hd.Tls.C12_never_in_clear", "Hd.Tls.C12_stream_means_verified",
                      "Hd.Tls.C12_failure_is_error", "Hd.Tls.C12_success", "Hd.Tls.C12_others_not_wrapped", "Hd.Tls.C12_no_panic",
-                     "Hd.Tls.C12_run_spec"],
+                     "Hd.Tls.C12_run_spec", "Hd.TlsPool.C12_pooled_secure_on_tls", "Hd.TlsPool.C12_pooled_needs_scheme_in_key",
+                     "Hd.TlsPool.send_conn", "Hd.TlsPool.schemeUsesTls_congr"],
         "streams": [
             {"name": "tls", "quick": 4000, "thorough": 200000, "head": 10, "unit": 1, "batch": 20000,
              "exhaustive": "tls-exhaustive", "exhaustive_always": True, "nontrivial": tls_nontrivial, "distribution": tls_dist},
+            {"name": "tlsp", "quick": 60, "thorough": 3000, "sep": ";", "batch": 4000, "exhaustive": "tlsp-exhaustive", "exhaustive_always": True,
+             "nontrivial": lambda r: any(t in ("https", "wss") for t in r["input"].split()) and any(t in ("http", "ws") for t in r["input"].split()),
+             "distribution": lambda rs: {"sequences": len(rs), "requests": sum(len(r["input"].split(";")) - 1 for r in rs),
+                                         "mixing_plain_and_secure": sum(1 for r in rs if any(t in ("https", "wss") for t in r["input"].split()) and any(t in ("http", "ws") for t in r["input"].split())),
+                                         "connections": sum(len(r["obs"].split(";")[-1].split()) for r in rs)}},
         ],
         "rule": "the real TlsTransport (with / without a rustls ClientConfig trusting harness/certs/ca.pem) around an inner transport "
                 "whose IO is an in-memory duplex; the peer end records every raw byte and is a real rustls server with a matching "
                 "(example.com, *.example.com, localhost, 127.0.0.1, ::1), other-name or untrusted certificate, or speaks plaintext, "
                 "closes before/after the first flight, truncates the handshake, sends a fatal alert, or stays silent. Schemes "
                 "http/https/ws/wss/HTTPS/Wss/foo/httpss x 20 host forms (DNS incl. wildcard one/two labels, upper case, trailing dot, "
-                "underscore; IPv4; three bracketed IPv6; URI-legal names rustls rejects) x ports x ALPN none/h2/http1.1/both on either "
+                "underscore; IPv4; three bracketed IPv6, an IPv4-mapped one and two bracketed hosts that are no IPv6 address - zone identifier, too few groups; URI-legal names rustls rejects) x ports x ALPN none/h2/http1.1/both on either "
                 "side; the URI either parsed from a string or assembled with Uri::builder (scheme spelling kept); optionally a caller-supplied "
                 "Host header naming another host. Every run includes the exhaustive grid scheme x host x peer x {TLS configured, not} "
                 "(+ from-parts / Host-header variants for the good and plaintext peers) plus the 4x4 ALPN square (4928 cases) besides the random cases. After a successful connect the client writes a marker through the stream; "
                 "observed: caller result, first raw bytes at the peer (TLS record / ASCII), marker visible raw, SNI parsed from the "
                 "raw ClientHello by the harness' own parser, negotiated ALPN, marker received through TLS. "
-                "non-trivial = TLS configured and scheme https/wss in any spelling",
+                "non-trivial = TLS configured and scheme https/wss in any spelling | tlsp: sequences of 2-5 requests to ONE authority that differ "
+                "in scheme (http/https/ws/wss) through the real pooled Client (Client::builder, TLS configured, default pool) over a scripted inner "
+                "transport; every connection ends at a recording peer that answers TLS if the first byte starts a handshake and then serves "
+                "HTTP/1.1 200 keep-alive, so the pool reuses connections; observed per request: result and whether its request head is readable in "
+                "the raw bytes of ANY connection; per connection: TLS records or ASCII. Every run includes all ordered pairs and triples of "
+                "schemes on two authorities (160 cases); non-trivial = secure and plain schemes mixed",
         "assumes": ["rustls: accepts a string as a server name exactly as reported by ServerName::try_from (the model takes that "
                     "verdict as an input); a handshake succeeds iff the peer's chain leads to a trusted root, a certificate name covers "
                     "the server name, and ALPN can be agreed; SNI carries DNS names only, without a trailing dot",
